@@ -114,7 +114,7 @@ def mutate(ch, lines, pool):
     for _ in range(ch.int(1, 3)):
         if not flat:
             break
-        op = ch.int(0, 9)
+        op = ch.int(0, 10)
         i, j = flat[ch.int(0, len(flat) - 1)]
         if j >= len(lines[i]):
             continue
@@ -137,6 +137,16 @@ def mutate(ch, lines, pool):
             desc.append(('delline',)); lines[i] = []
         elif op == 8:
             desc.append(('dupline',)); lines.insert(i, list(lines[i]))
+        elif op == 10:
+            # break the line before this token, optionally putting a directive-like line into the gap (inside argument lists,
+            # initializers, declarations: constructs that span lines)
+            head, tail = lines[i][:j], lines[i][j:]
+            mid = []
+            if ch.int(0, 9) < 6:
+                mid = [['#'] + ch.choice(['2', 'if', 'if 0', 'define X', 'undef X', 'line 7', 'pragma once', 'endif', 'else', 'include "nope.h"', 'error e', '', 'ifdef', 'elif 1', '3 "f.c"']).split()]
+            desc.append(('split-line', ' '.join(mid[0]) if mid else ''))
+            lines[i:i + 1] = [head] + mid + [tail]
+            flat = [(a, b) for a, l in enumerate(lines) for b in range(len(l))]
         else:
             # truncate the file: at a random token, or just after an opening bracket (unterminated nested constructs at end of input)
             opens = [(a_, b_) for (a_, b_) in flat if b_ < len(lines[a_]) and lines[a_][b_] in ('(', '{', '[') and not (lines[a_] and lines[a_][0] == '#')]
@@ -155,7 +165,7 @@ def render(lines):
     return '\n'.join(' '.join(l) for l in lines) + '\n'
 
 
-BYTE_EDITS = [b'"', b"'", b'\\', b'\x00', b'\xff', b'\xc3', b'\xe2\x82', b'\xf0\x9f', b'\r', b'/*', b'*/', b'//', b'\\\n', b'#', b'\n#', b'\x1a', b'\xef\xbb\xbf', b'@', b'`', b'$']
+BYTE_EDITS = [b'"', b"'", b'\\', b'\x00', b'\xff', b'\xc3', b'\xe2\x82', b'\xf0\x9f', b'\r', b'/*', b'*/', b'//', b'\\\n', b'#', b'\n#', b'\n# 2\n', b'\n#define X 1\n', b'\n#if 0\n', b'\x1a', b'\xef\xbb\xbf', b'@', b'`', b'$']
 
 
 def byte_mutate(ch, data):
@@ -216,7 +226,7 @@ def judge(tree, path, nlines, d):
 class C13:
     id = 'C13'
     level = 'exploration'
-    rule = ('cases = token-level mutants (1-3 edits: delete, replace, insert, duplicate, swap, delete/duplicate line, truncate; replacement tokens from a pool of keywords, punctuators, '
+    rule = ('cases = token-level mutants (1-3 edits: delete, replace, insert, duplicate, swap, delete/duplicate line, line break with an optional directive-like line in the gap, truncate; replacement tokens from a pool of keywords, punctuators, '
             'boundary literals, builtins and tokens of the seeds) and byte-level mutants (quotes, backslashes, NUL, invalid UTF-8, CR, comment openers, BOM, truncation) of seeds: the '
             "repository's tests (raw and preprocessed), the compiler's own preprocessed sources, 97 minimal per-diagnostic-site triggers and small valid programs (60-line windows). "
             'Oracle: cc1 exit 0 + assembles, or exit 1 with `file:line:` inside the input, never a signal / assertion / internal error / other status / silence / hang. '
